@@ -140,3 +140,21 @@ Section Law.
     | _ => law_verdict (decode a o)
     end.
 End Law.
+
+(* the law over a history: every query is judged against the state current when it was asked (the state is threaded
+   from the operations themselves, never from the model) *)
+Definition hnext (st : hstate) (o : hop) : hstate :=
+  match o with
+  | HQuery _ => st
+  | HTables s m => mkH s m (h_offers st)
+  | HOffer x => mkH (h_sub st) (h_mro st) (h_offers st ++ [x])
+  end.
+Fixpoint hlaw (i : Z) (st : hstate) (h : list (hop * option outcome)) : list Z :=
+  match h with
+  | [] => []
+  | (o, ob) :: r =>
+      match o, ob with
+      | HQuery q, Some out => map (fun c => (100 * i + c)%Z) (law (env_of (config_of st q)) (snd q) out)
+      | _, _ => []
+      end ++ hlaw (i + 1)%Z (hnext st o) r
+  end.
